@@ -50,7 +50,7 @@ Hypothesis HF : Frag6a text.
 Variable xds : list X4.xdecl.
 Variable ets : list entity.
 Notation decls := (map pd xds).
-Hypothesis Henv6 : Forall2 (env6 text xds) xds ets.
+Hypothesis Henv6 : Forall2 (env6 text) xds ets.
 Hypothesis Hdecls : Forall CstFullS4TSem.udecl_okc decls.
 Hypothesis Hmk : forall d its, In d decls -> E.e_value d = E.EContent its ->
   mem_b 60 (E.r_value (E.e_value d)) = true /\ Forall (fun y => y <> 38) (E.r_value (E.e_value d)).
@@ -126,7 +126,7 @@ Qed.
 
 Lemma Closed_prepend_leaf_a depth (i : uitem) (i' : bitem) l1 stk s' c' :
   Closed_a depth l1 stk s' c' -> wf_uitem_s false i = true -> is_text epieces i = false ->
-  inline_item tb4 false i = Some ([i'], []) -> provisos_item i' = true -> is_btext i' = false ->
+  inline_item tb4 false i = Some ([i'], []) -> provisos_item i' = true -> CstFullS4Sem.is_btext i' = false ->
   (forall sc, ns_oks sc (bdens [i']) = true) ->
   Closed_a depth (r_item i ++ l1) stk s' c'.
 Proof.
@@ -205,7 +205,7 @@ Proof.
   intros HC Hok.
   destruct (elem_facts _ _ _ _ _ Hok) as (Hqn & Hes & Hwe & es' & tra & Ee & Ge & Xe & Ce & Hown).
   destruct (elem_sem tb4 false (top_sc stk) (mkq pre loc) es es' tra ws_end None [] [] Ee Ge Ce Hown (conj eq_refl eq_refl)) as (I1 & I2 & I3 & I4 & _).
-  pose proof (Closed_prepend_a depth (IElem (mkq pre loc) es ws_end None) l1 stk s' c' _ _ HC) as H.
+  pose proof (Closed_prepend_a depth (IElem (mkq pre loc) es ws_end None) l1 stk s' c' [@IElem bpieces (mkq pre loc) es' ws_end None] (tra ++ []) HC) as H.
   rewrite CstFullTree.r_item_elem, rq_eq in H. rewrite <- !app_assoc in H.
   apply (H ltac:(rewrite CstFullS6Text.wf_uitem_elem, Hqn, Hes, (ws_s _ Hwe); reflexivity) eq_refl I1 I2 I3 I4).
 Qed.
@@ -236,9 +236,9 @@ Qed.
 
 
 Lemma ResX_of c D K : CstSoundPBuild.Res text c D K [] -> ResX c.
-Proof. intros H. exists D, K. exact H. Qed.
+Proof. intros [A B0 C0 D0]. exists D, K. constructor; [exact A|exact B0|exact C0|exact D0]. Qed.
 Lemma ResX_get c : ResX c -> exists D K, CstSoundPBuild.Res text c D K [].
-Proof. intros (D & K & H). exists D, K. exact H. Qed.
+Proof. intros (D & K & [A B0 C0 D0]). exists D, K. constructor; [exact A|exact B0|exact C0|exact D0]. Qed.
 
 Lemma content_sound_a : forall fuel depth p l c s' c' stk,
   WV p l -> bom_len text < p -> SimP c stk -> ResX c -> N.of_nat (length stk) = depth + 1 ->
